@@ -651,13 +651,24 @@ class IPPO(MultiAgentRLAlgorithm):
                     + self.gamma * self.gae_lambda * next_non_terminal * last_gae_lambda
                 )
 
-            advantages = advantages.reshape((-1,))
-            values = values.reshape((-1,))
+            # Flatten in (agent, step, env) order so that rows line up with the states and
+            # actions produced by `concatenate_experiences_into_batches` below
+            n_homo_agents = len(states)
+
+            def agent_major(tensor: torch.Tensor) -> torch.Tensor:
+                return (
+                    tensor.reshape(num_steps, n_homo_agents, -1)
+                    .transpose(0, 1)
+                    .reshape((-1,))
+                )
+
+            advantages = agent_major(advantages)
+            values = agent_major(values)
             returns = advantages + values
 
         states = concatenate_experiences_into_batches(states, obs_space)
         actions = concatenate_experiences_into_batches(actions, action_space)
-        log_probs = log_probs.reshape((-1,))
+        log_probs = agent_major(log_probs)
         experiences = (states, actions, log_probs, advantages, returns, values)
 
         # Move experiences to algo device
